@@ -66,6 +66,18 @@ impl Parser {
         Some(&self.tokens[self.index])
     }
 
+    /// Whether the `.` at the current position is the first character of a
+    /// punctuation identifier such as `...` (and not the dot of a pair): it is
+    /// directly followed by another identifier punctuation character.
+    fn dot_starts_identifier(&self) -> bool {
+        match (self.tokens.get(self.index), self.tokens.get(self.index + 1)) {
+            (Some(TokenTree::Punct(dot)), Some(TokenTree::Punct(next))) => {
+                dot.spacing() == Spacing::Joint && is_identifier_punct(next.as_char())
+            }
+            _ => false,
+        }
+    }
+
     fn eat_token(&mut self) {
         assert!(self.index < self.tokens.len());
         self.index += 1;
@@ -127,8 +139,7 @@ impl Parser {
                     // and `<special subsequent>` from R7RS, removing
                     // `_`, which is not a Rust punctuation character,
                     // but (part of) an identfier.
-                    '!' | '$' | '%' | '&' | '*' | '+' | '-' | '.' | '/' | ':' | '<' | '=' | '>'
-                    | '?' | '@' | '^' | '~' => {
+                    c if is_identifier_punct(c) => {
                         identifier.push(punct.as_char());
                         let spacing = punct.spacing();
                         self.eat_token();
@@ -183,6 +194,28 @@ impl Parser {
     }
 }
 
+fn is_identifier_punct(c: char) -> bool {
+    matches!(
+        c,
+        '!' | '$'
+            | '%'
+            | '&'
+            | '*'
+            | '+'
+            | '-'
+            | '.'
+            | '/'
+            | ':'
+            | '<'
+            | '='
+            | '>'
+            | '?'
+            | '@'
+            | '^'
+            | '~'
+    )
+}
+
 fn string_literal(lit: &Literal) -> Result<String, ParseError> {
     let s = lit.to_string();
     if s.starts_with('"') {
@@ -198,7 +231,7 @@ fn parse_list(tokens: TokenStream) -> Result<Value, ParseError> {
     let mut parser = Parser::new(tokens.into_iter().collect());
     while let Some(token) = parser.peek() {
         if let TokenTree::Punct(punct) = token {
-            if punct.as_char() == '.' {
+            if punct.as_char() == '.' && !parser.dot_starts_identifier() {
                 if tail.is_some() {
                     return Err(ParseError::UnexpectedChar('.'));
                 }
